@@ -236,7 +236,7 @@ namespace vf
       static constexpr bool logged = ( rid< Rule >::value >= 0 );
 
       template< typename ParseInput, typename... States >
-      static void start( const ParseInput& in, States&&... /*unused*/ )
+      static void start( const ParseInput& in, States&&... /*unused*/ ) noexcept
       {
          if constexpr( logged ) {
             verif_event( EV_START, rid< Rule >::value, in.byte(), 0 );
@@ -244,7 +244,7 @@ namespace vf
       }
 
       template< typename ParseInput, typename... States >
-      static void success( const ParseInput& in, States&&... /*unused*/ )
+      static void success( const ParseInput& in, States&&... /*unused*/ ) noexcept
       {
          if constexpr( logged ) {
             verif_event( EV_SUCCESS, rid< Rule >::value, in.byte(), 0 );
@@ -252,7 +252,7 @@ namespace vf
       }
 
       template< typename ParseInput, typename... States >
-      static void failure( const ParseInput& /*unused*/, States&&... /*unused*/ )
+      static void failure( const ParseInput& /*unused*/, States&&... /*unused*/ ) noexcept
       {
          if constexpr( logged ) {
             verif_event( EV_FAILURE, rid< Rule >::value, 0, 0 );
@@ -283,7 +283,7 @@ namespace vf
       static constexpr bool logged = ( rid< Rule >::value >= 0 );
 
       template< typename ParseInput, typename... States >
-      static void start( const ParseInput& in, States&&... /*unused*/ )
+      static void start( const ParseInput& in, States&&... /*unused*/ ) noexcept
       {
          if constexpr( logged ) {
             verif_event( EV_START, rid< Rule >::value, in.byte(), 0 );
@@ -291,7 +291,7 @@ namespace vf
       }
 
       template< typename ParseInput, typename... States >
-      static void success( const ParseInput& in, States&&... /*unused*/ )
+      static void success( const ParseInput& in, States&&... /*unused*/ ) noexcept
       {
          if constexpr( logged ) {
             verif_event( EV_SUCCESS, rid< Rule >::value, in.byte(), 0 );
@@ -299,7 +299,7 @@ namespace vf
       }
 
       template< typename ParseInput, typename... States >
-      static void failure( const ParseInput& /*unused*/, States&&... /*unused*/ )
+      static void failure( const ParseInput& /*unused*/, States&&... /*unused*/ ) noexcept
       {
          if constexpr( logged ) {
             verif_event( EV_FAILURE, rid< Rule >::value, 0, 0 );
